@@ -197,14 +197,16 @@ def cbResetMetric (a : LA.Arr ECnt) (now : Nat) : LA.Arr ECnt :=
   if now = 0 then a else
   { a with slots := a.slots.map fun s => if !LA.deprecated (a.n * a.L) now s.start then { s with val := 0 } else s }
 
-/-- should a closed breaker open?  (error count: `errorCount >= threshold`; error ratio with threshold 0 / 1:
+/-- should a closed breaker open?  (error count: `errorCount >= threshold`; error / slow ratio with threshold 0 / 1:
     `ratio > t || ratio ≈ t`) -/
 def cbTrips (r : CbRule) (s : ECnt) : Bool :=
   if r.strat = 2 then decide (s.err ≥ r.thr)
   else if r.thr = 0 then true else decide (s.err = s.total)
 
-/-- `OnRequestComplete(rt, err)` of an error-count / error-ratio breaker -/
-def cbComplete (now : Nat) (err : Bool) (c : Ctl CbRule CbSt) : Ctl CbRule CbSt :=
+/-- `OnRequestComplete(rt, err)`: the three breakers differ only in what counts as a bad request (a slow one for
+    the slow-request-ratio breaker, a failed one otherwise) and in `cbTrips` -/
+def cbComplete (now : Nat) (rt : Nat) (err0 : Bool) (c : Ctl CbRule CbSt) : Ctl CbRule CbSt :=
+  let err := if c.rule.strat = 0 then decide (rt > c.rule.maxRt) else err0
   let arr := (LA.addAt c.st.arr now { err := if err then 1 else 0, total := 1 }).1
   let s := ecSum arr now
   let st := { c.st with arr := arr }
@@ -420,7 +422,7 @@ def kvGet (xs : List (Nat × Nat)) (k : Nat) : Option Nat := (xs.find? (·.1 == 
 def kvSet (xs : List (Nat × Nat)) (k v : Nat) : List (Nat × Nat) := (k, v) :: xs.filter (·.1 != k)
 
 /-- `rejectTrafficShapingController.PerformChecking` (QPS, batch 1, no cache eviction): `true` = passed -/
-def hotCheckOne (now : Nat) (arg : Nat) (c : Ctl HotRule HotSt) : Bool × Ctl HotRule HotSt :=
+def hotRejectOne (now : Nat) (arg : Nat) (c : Ctl HotRule HotSt) : Bool × Ctl HotRule HotSt :=
   let tokenCount := if c.rule.items = 2 && c.rule.sval = arg then c.rule.sthr else c.rule.thr
   if tokenCount = 0 then (false, c) else
   let maxCount := tokenCount + c.rule.burst
@@ -444,12 +446,33 @@ def hotCheckOne (now : Nat) (arg : Nat) (c : Ctl HotRule HotSt) : Bool × Ctl Ho
       | some rest => if rest ≥ 1 then (true, { c with st := { c.st with tokens := kvSet c.st.tokens arg (rest - 1) } }) else (false, c)
       | none => (false, c)     -- unreachable without eviction (the code would spin)
 
-/-- `hotspot.Slot.Check`: controllers in order, the first refusal ends the scan -/
-def hotScan (now : Nat) (arg : Nat) : List (Ctl HotRule HotSt) → Option Nat × List (Ctl HotRule HotSt)
-  | [] => (none, [])
+/-- `throttlingTrafficShapingController.PerformChecking` (QPS, batch 1): per-value last pass time, waits in ms -/
+def hotThrottleOne (now : Nat) (arg : Nat) (c : Ctl HotRule HotSt) : Verdict × Ctl HotRule HotSt :=
+  let tokenCount := if c.rule.items = 2 && c.rule.sval = arg then c.rule.sthr else c.rule.thr
+  if tokenCount = 0 then (.block, c) else
+  let interval := c.rule.dur * 1000 / tokenCount
+  match kvGet c.st.times arg with
+  | none => (.pass, { c with st := { c.st with times := kvSet c.st.times arg now } })
+  | some last =>
+    let expected := last + interval
+    if expected ≤ now then (.pass, { c with st := { c.st with times := kvSet c.st.times arg now } })
+    else if expected - now < c.rule.maxQ then
+      (.wait ((expected - now) * 1000000), { c with st := { c.st with times := kvSet c.st.times arg expected } })
+    else (.block, c)
+
+def hotCheckOne (now : Nat) (arg : Nat) (c : Ctl HotRule HotSt) : Verdict × Ctl HotRule HotSt :=
+  if c.rule.cb = 1 then hotThrottleOne now arg c
+  else match hotRejectOne now arg c with
+    | (true, c') => (.pass, c')
+    | (false, c') => (.block, c')
+
+/-- `hotspot.Slot.Check`: controllers in order, the first refusal ends the scan, waits add up -/
+def hotScan (now : Nat) (arg : Nat) : List (Ctl HotRule HotSt) → Option Nat × Nat × List (Ctl HotRule HotSt)
+  | [] => (none, 0, [])
   | c :: cs =>
     match hotCheckOne now arg c with
-    | (false, c') => (some c.rule.id, c' :: cs)
-    | (true, c') => let (b, cs') := hotScan now arg cs; (b, c' :: cs')
+    | (.block, c') => (some c.rule.id, 0, c' :: cs)
+    | (.pass, c') => let (b, w, cs') := hotScan now arg cs; (b, w, c' :: cs')
+    | (.wait ns, c') => let (b, w, cs') := hotScan now arg cs; (b, w + ns, c' :: cs')
 
 end Sentinel.Reuse
